@@ -29,10 +29,13 @@ fn chunks<E: Elem, N: ArrayLength>(mutable: bool, l: usize) -> Result<CaseInfo, 
     let (c, rem) = r.map_err(|e| format!("unexpected panic {e:?}"))?;
     let want_c = (src, l / n);
     let want_r = (src + (l / n) * n * sz, l % n);
-    if c != want_c {
+    // where an EMPTY part points is not pinned ("same memory ... nothing beyond the end" speaks about the elements a part
+    // holds; the crate itself hands out free-standing empties for N = 0)
+    let same_part = |got: (usize, usize), want: (usize, usize)| got.1 == want.1 && (want.1 == 0 || got.0 == want.0);
+    if !same_part(c, want_c) {
         return Err(format!("chunk part is (addr +{}, len {}), expected (addr +0, len {})", c.0.wrapping_sub(src), c.1, want_c.1));
     }
-    if rem != want_r {
+    if !same_part(rem, want_r) {
         return Err(format!("remainder is (addr +{}, len {}), expected (addr +{}, len {})", rem.0.wrapping_sub(src), rem.1, want_r.0 - src, want_r.1));
     }
     // contents, element by element, through the returned parts
@@ -52,8 +55,8 @@ fn chunks<E: Elem, N: ArrayLength>(mutable: bool, l: usize) -> Result<CaseInfo, 
         }
         // inverse
         let flat = GA::<E, N>::slice_from_chunks(cs);
-        if span_of(flat) != (src, cs.len() * n) {
-            return Err(format!("slice_from_chunks gives (addr +{}, len {}), expected (+0, {})", flat.as_ptr() as usize - src, flat.len(), cs.len() * n));
+        if !same_part(span_of(flat), (src, cs.len() * n)) {
+            return Err(format!("slice_from_chunks gives (addr +{}, len {}), expected (+0, {})", (flat.as_ptr() as usize).wrapping_sub(src), flat.len(), cs.len() * n));
         }
     }
     if mutable && !E::ZST {
@@ -84,7 +87,7 @@ fn chunks<E: Elem, N: ArrayLength>(mutable: bool, l: usize) -> Result<CaseInfo, 
             let (cs, _) = GA::<E, N>::chunks_from_slice_mut(&mut buf[CANARY..CANARY + l]);
             let k = cs.len();
             let flat = GA::<E, N>::slice_from_chunks_mut(cs);
-            if span_of(flat) != (src, k * n) {
+            if span_of(flat).1 != k * n || (k * n > 0 && span_of(flat).0 != src) {
                 return Err("slice_from_chunks_mut does not cover the chunk part".into());
             }
         }
